@@ -8,13 +8,13 @@ import (
 )
 
 // c05 source kinds
-var c05Kinds = []string{"func", "structV", "structP", "value", "ifacevalue", "bind", "bindSame", "fieldV", "fieldP", "arg"}
+var c05Kinds = []string{"func", "structV", "structP", "value", "ifacevalue", "bind", "bindSame", "bindVia", "fieldV", "fieldP", "arg"}
 
 // classes of the contested type and the kinds that can provide each
 var c05Classes = map[string][]string{
 	"S":    {"func", "structV", "value", "fieldV", "arg"},
 	"PS":   {"func", "structP", "value", "fieldV", "fieldP", "arg"},
-	"I":    {"func", "ifacevalue", "bind", "bindSame", "fieldV", "arg"},
+	"I":    {"func", "ifacevalue", "bind", "bindSame", "bindVia", "fieldV", "arg"},
 	"COMP": {"func", "value", "fieldV", "arg"},
 	// SPELL: one type written in two spellings ([]byte / []uint8, rune / int32, any / interface{})
 	"SPELL": {"func", "value", "fieldV", "arg"},
@@ -182,6 +182,13 @@ func c05Source(b *PB, ct *c05T, kind string, t *Ty, pkg int) (main *Item, suppor
 			return nil, nil, false
 		}
 		return b.Bind(t, ct.impls[0]), nil, true
+	case "bindVia":
+		// the interface is bound to another interface, which a binding listed later in the
+		// same group binds to a struct: the first binding can only be resolved after the second
+		impl := b.NamedOf(pkg, fmt.Sprintf("Impl%d", b.next()), StructOf(FieldT{Name: "X", Ty: Basic("int")}), "none")
+		impl.Decl.Methods = append(impl.Decl.Methods, Method{Name: ct.method})
+		mid := Named(b.P.NewDecl(pkg, fmt.Sprintf("Mid%d", b.next()), &Ty{K: "iface", Meths: []string{ct.method}, Params: []*Ty{Basic("int")}}, "iface"))
+		return b.Bind(t, mid), []*Item{stub(impl), b.Bind(mid, impl)}, true
 	case "fieldV":
 		par := b.NamedOf(pkg, fmt.Sprintf("Parent%d", b.next()), StructOf(FieldT{Name: "Fld", Ty: t}), "none")
 		return b.Fields(par, "Fld"), []*Item{stub(par)}, true
@@ -248,6 +255,13 @@ func c05Case(id string, k1, k2, class, placement string, alias bool) (mut, ctl *
 		g2 := refs(sup2...)
 		if m2 != nil {
 			g2 = append(g2, ItemRef(m2.ID))
+		}
+		// the binding that has to wait is listed before the one it waits for
+		if k1 == "bindVia" {
+			g1 = append([]Ref{ItemRef(m1.ID)}, refs(sup1...)...)
+		}
+		if withSecond && k2 == "bindVia" {
+			g2 = append([]Ref{ItemRef(m2.ID)}, refs(sup2...)...)
 		}
 		// an unrelated needed provider, for the unneeded-part placement
 		other := b.Carrier(0, "Other")
@@ -411,7 +425,13 @@ func CheckC05(e *Env) int {
 				if k1 == "bindSame" && k2 == "bindSame" {
 					continue
 				}
-				if e.Tier != "thorough" && !(k1 == "bind" && k2 == "bindSame") {
+				via := k1 == "bindVia" || k2 == "bindVia"
+				if e.Tier != "thorough" && via {
+					// both sources in one group, in both orders
+					placements = []string{"direct", "unused-var(check)", "unneeded-part", "nested+direct"}
+					aliasForms = []bool{false}
+				}
+				if e.Tier != "thorough" && !(k1 == "bind" && k2 == "bindSame") && !via {
 					// two seeded placements, one alias form per cell
 					p1 := r.Intn(len(c05Placements))
 					p2 := (p1 + 1 + r.Intn(len(c05Placements)-1)) % len(c05Placements)
@@ -423,6 +443,13 @@ func CheckC05(e *Env) int {
 						a, b := k1, k2
 						if r.Intn(2) == 0 && b != "bindSame" {
 							a, b = b, a
+						}
+						if via && k1 != k2 && k1 != "bindSame" && k2 != "bindSame" {
+							// fixed orders: the waiting binding first in two placements, second in the others
+							a, b = k1, k2
+							if (a == "bindVia") != (pl == "direct" || pl == "unneeded-part") {
+								a, b = b, a
+							}
 						}
 						n++
 						id := fmt.Sprintf("cf%04d", n)
